@@ -65,7 +65,7 @@ Proof.
     unfold outc in *. cbn. unfold updn. destruct (Nat.eqb_spec x tid) as [->|]; [rewrite Et in Ho; discriminate|exact Ho].
   - destruct (g_tasks st tid) eqn:Et; [discriminate|]. injection H as <-.
     unfold outc in *. cbn. unfold updn. destruct (Nat.eqb_spec x tid) as [->|]; [rewrite Et in Ho; discriminate|exact Ho].
-  - assert (Hx : exists a s s', g_tasks st tid = Some (TLoop a s) /\ lstep (c_limit c a) (c_delay c a) s t e = Some s' /\
+  - assert (Hx : exists a s s', g_tasks st tid = Some (TLoop a s) /\ lstep (cur_limit c st a) (c_delay c a) s t e = Some s' /\
                    st' = set_tasks st (updn (g_tasks st) tid (Some (TLoop a s')))).
     { destruct e; try discriminate; destruct (g_tasks st tid) as [[a s|]|]; try discriminate;
         match type of H with context [lstep ?l ?d ?s0 ?t0 ?e0] => destruct (lstep l d s0 t0 e0) as [s'|] eqn:El end;
@@ -97,6 +97,8 @@ Proof.
     + destruct targets; [|discriminate]. injection H as <-. exact Ho.
     + destruct (set_eqb targets [tid]); [|discriminate]. injection H as <-.
       change (outc (cancel_all st [tid]) x = Some o). rewrite cancel_all_outc. exact Ho.
+  - destruct (g_wait st w); [|discriminate]. injection H as <-. exact Ho.
+  - injection H as <-. exact Ho.
   - destruct (forallb (is_done st) l); [|discriminate]. injection H as <-. exact Ho.
 Qed.
 
@@ -297,7 +299,7 @@ Ltac crush_step H :=
 Lemma step_calls_ok c st t e st' : gstep c st t e = Some st' -> calls_ok st -> calls_ok st'.
 Proof.
   intros H HI. pose proof (step_mono _ _ _ _ _ H) as Hm.
-  destruct e as [a tid created|a tid|tid le|tid o|a targets|tid|a w|a w targets|w|w r|r actors aws|r done|r|tid w targets|a l]; unfold gstep in H.
+  destruct e as [a tid created|a tid|tid le|tid o|a targets|tid|a w|a w targets|w|w r|r actors aws|r done|r|tid w targets|w|a lim|a l]; unfold gstep in H.
   1,2,4,5,6,11,12,13: (eapply calls_ok_tasks_only; [exact Hm| | | |exact HI]; crush_step H; reflexivity).
   - (* GLoop *) eapply calls_ok_tasks_only; [exact Hm| | | |exact HI];
       destruct le; try discriminate; destruct (g_tasks st tid) as [[a s|]|]; try discriminate;
@@ -323,6 +325,13 @@ Proof.
       match goal with |- calls_ok (set_wait ?s1 (updn _ ?w1 (Some ?W1))) =>
         change (calls_ok (set_wait s1 (updn (g_wait s1) w1 (Some W1)))) end.
       apply set_wait_ok; [apply cancel_all_calls_ok, HI|]. split; cbn; [intros x []|left; split; reflexivity].
+  - (* GCallCancelled *) destruct (g_wait st w) eqn:EW; [|discriminate]. injection H as <-.
+    destruct HI as (H1 & H2 & H3). split; [|split]; cbn.
+    + intros w' W'. unfold updn. destruct (Nat.eqb_spec w' w); [discriminate|]. intros E.
+      eapply W_ok_mono; [exact Hm|apply (H1 w' W' E)].
+    + intros w' F' E. eapply F_ok_mono; [exact Hm|apply (H2 w' F' E)].
+    + exact H3.
+  - (* GSetLimit *) injection H as <-. eapply calls_ok_tasks_only; [exact Hm| | | |exact HI]; reflexivity.
   - (* GWithDone *) destruct (forallb (is_done st) l); [|discriminate]. injection H as <-. exact HI.
 Qed.
 
@@ -438,7 +447,7 @@ Proof.
     + intros a1 x1 x2 s1 s2. unfold updn.
       destruct (Nat.eqb_spec x1 tid); [discriminate|]. destruct (Nat.eqb_spec x2 tid); [discriminate|]. apply H2.
   - (* GLoop *)
-    assert (Hx : exists a s s', g_tasks st tid = Some (TLoop a s) /\ lstep (c_limit c a) (c_delay c a) s t e = Some s' /\
+    assert (Hx : exists a s s', g_tasks st tid = Some (TLoop a s) /\ lstep (cur_limit c st a) (c_delay c a) s t e = Some s' /\
                    e <> LCancel /\ st' = set_tasks st (updn (g_tasks st) tid (Some (TLoop a s')))).
     { destruct e; try discriminate; destruct (g_tasks st tid) as [[a s|]|]; try discriminate;
         match type of H with context [lstep ?l ?d ?s0 ?t0 ?e0] => destruct (lstep l d s0 t0 e0) as [s'|] eqn:El end;
@@ -491,6 +500,8 @@ Proof.
     + destruct targets; [|discriminate]. injection H as <-. eapply loops_ok_same; [| |exact HI]; reflexivity.
     + destruct (set_eqb targets [tid]); [|discriminate]. injection H as <-.
       eapply loops_ok_same; [| |apply (cancel_all_loops_ok st [tid]), HI]; reflexivity.
+  - destruct (g_wait st w); [|discriminate]. injection H as <-. eapply loops_ok_same; [| |exact HI]; reflexivity.
+  - injection H as <-. eapply loops_ok_same; [| |exact HI]; reflexivity.
   - destruct (forallb (is_done st) l); [|discriminate]. injection H as <-. exact HI.
 Qed.
 
@@ -524,7 +535,7 @@ Proof.
                   (forall w, g_ret st w = true -> g_ret st' w = true) -> run_ok st').
   { intros Hr Hrr Hret. unfold run_ok. rewrite Hr, Hrr. split; [|exact H2].
     intros r ws pend Hrun w Hw. destruct (H1 r ws pend Hrun w Hw) as [Hp|Hp]; [left; exact Hp|right; apply Hret, Hp]. }
-  destruct e as [a tid created|a tid|tid le|tid o|a targets|tid|a w|a w targets|w|w r|r actors aws|r done|r|tid w targets|a l]; unfold gstep in H.
+  destruct e as [a tid created|a tid|tid le|tid o|a targets|tid|a w|a w targets|w|w r|r actors aws|r done|r|tid w targets|w|a lim|a l]; unfold gstep in H.
   1,2,4,5,6: (apply Hsame; crush_step H; try reflexivity; trivial).
   - (* GLoop *) apply Hsame;
       destruct le; try discriminate; destruct (g_tasks st tid) as [[a s|]|]; try discriminate;
@@ -566,6 +577,8 @@ Proof.
     destruct (g_runret st r); [discriminate|]. injection H as <-. split; cbn; [exact H1|].
     intros r' Hrr. unfold updn in Hrr. destruct (Nat.eqb r' r) eqn:E; [apply Nat.eqb_eq in E; subst r'; exists ws; exact Er|apply H2, Hrr].
   - (* GCawCall *) apply Hsame; crush_step H; try reflexivity; trivial.
+  - (* GCallCancelled *) apply Hsame; crush_step H; try reflexivity; trivial.
+  - (* GSetLimit *) apply Hsame; crush_step H; try reflexivity; trivial.
   - (* GWithDone *) apply Hsame; crush_step H; try reflexivity; trivial.
 Qed.
 
@@ -668,10 +681,31 @@ Qed.
 Lemma loop_step_uses_own_config c st t tid le st' :
   gstep c st t (GLoop tid le) = Some st' ->
   exists a s s', g_tasks st tid = Some (TLoop a s) /\ le <> LCancel /\
-                 lstep (c_limit c a) (c_delay c a) s t le = Some s' /\ g_tasks st' tid = Some (TLoop a s').
+                 lstep (cur_limit c st a) (c_delay c a) s t le = Some s' /\ g_tasks st' tid = Some (TLoop a s').
 Proof.
   unfold gstep. intros H.
   destruct le; try discriminate; destruct (g_tasks st tid) as [[a s|]|]; try discriminate;
     match type of H with context [lstep ?l ?d ?s0 ?t0 ?e0] => destruct (lstep l d s0 t0 e0) as [s'|] eqn:El end;
     try discriminate; injection H as <-; exists a, s, s'; cbn; rewrite updn_same; repeat split; try discriminate; auto.
+Qed.
+
+(* the awaiter of a blocked call is cancelled: the call is abandoned (it raised CancelledError), it has NOT
+   returned, and nothing else changes -- in particular no task is considered finished *)
+Lemma awaiter_cancelled c st t w st' :
+  gstep c st t (GCallCancelled w) = Some st' ->
+  g_wait st w <> None /\ g_wait st' w = None /\ g_fin st' = g_fin st /\ g_ret st' = g_ret st /\
+  g_tasks st' = g_tasks st /\ g_set st' = g_set st.
+Proof.
+  unfold gstep. destruct (g_wait st w) eqn:E; [|discriminate]. intros H. injection H as <-. cbn.
+  rewrite updn_same. repeat split. discriminate.
+Qed.
+
+(* a call returns (GRet is accepted) only if its result has been determined, i.e. after the tasks it waited
+   for were all done; a blocked call can only be resumed by GWake (all awaited tasks done) or abandoned *)
+Lemma ret_needs_finished c st t w r st' :
+  gstep c st t (GRet w r) = Some st' -> exists F, g_fin st w = Some F /\ wres_eqb (f_res F) r = true.
+Proof.
+  unfold gstep. destruct (g_fin st w) as [F|]; [|discriminate].
+  destruct (negb (g_ret st w)); cbn; [|discriminate]. destruct (wres_eqb (f_res F) r) eqn:E; [|discriminate].
+  intros _. exists F. auto.
 Qed.
